@@ -47,7 +47,9 @@ def fix(v):
 
 def oracle(case, reply):
     if reply in ("panic", "abort"):
-        return f"the analysis pipeline crashed ({reply}) on bytecode {case['line'].split(' ')[1]}"
+        return f"the analysis pipeline crashed ({reply}) on bytecode {case['line'].split(' ')[1][:80]}"
+    if reply == "timeout" and case.get("time_observable"):
+        return f"the analysis pipeline did not finish within the time limit on bytecode {case['line'].split(' ')[1][:80]}"
     return None
 
 
